@@ -10,6 +10,7 @@ import Frrs.Proofs.Monotone
 import Frrs.Filter
 import Frrs.Proofs.Bytes
 import Frrs.Extracted
+import Frrs.Proofs.Pipes
 namespace Frrs.C10
 open Frrs
 set_option linter.unusedSimpArgs false
@@ -146,5 +147,12 @@ theorem output_never_retracted (o : FOpts) (f : Nat) (s : FState) (inp : Bytes) 
 
 /-- a run that fails reports exactly the bytes it had written when it failed -/
 theorem failed_reports_what_was_written (s : FState) : (failed s).out = s.out := rfl
+
+
+/-- **every export is framed**: whatever the options, the exporter is started with `--use-done-feature`, so a stream that
+    ends early is recognisable by the filter and by the importer (model of pipes.rs, Frrs/Pipes.lean) -/
+theorem every_export_uses_the_done_feature (c : Pipes.Caps) (o : Cli.CliOpts) (args : List Bytes)
+    (h : Pipes.exportCmd c o = some args) (hov : o.feOverride = none) : b!"--use-done-feature" ∈ args :=
+  (Pipes.export_is_framed c o args h hov).1
 
 end Frrs.C10
